@@ -44,7 +44,7 @@ CLAIMED = {
  "C15": dict(engine="E1", design="§5 C15", technique="bounded exhaustive enumeration of doc strings over a token alphabet; differential token-stream oracle (with docs vs without docs)",
      text="Every word of length ≤ 2 (quick) / ≤ 3 (thorough) over {text, newline, */, /*, //, triple quotes (both), backslash, #, backtick}, with and without separating spaces, in each Rust doc syntax that can express it, at 6 documentable positions, for 6 languages (~240k executions thorough). The code token stream of the output (comments/docstrings removed by a per-language tokenizer) must equal that of the doc-free program, tokenizing must not end inside an open comment/string, and the sentinels around the payload must lie inside comment tokens.",
      note="Trusted: the per-language tokenizers' notion of comment/docstring."),
- "C13": dict(engine="E1", design="§5 C13", technique="bounded exhaustive enumeration of cfg expressions × target lists × attachment levels vs the documented rule evaluated on the generator's AST",
+ "C13": dict(engine="E1", design="§5 C13", technique="bounded exhaustive enumeration of cfg expressions × target lists × attachment levels vs the documented rule evaluated on the generator's AST; on the real binary (S-cli) the flag x configuration-file matrix: the target list comes from --target-os only",
      text="All 10 015 cfg expressions of depth ≤ 3 over any/all/not with leaves target_os=a|b|c, feature, unix × all 16 target lists over {a,b,c,d} × 8 attachment levels × 2 attribute orders, pairs and triples of separate cfg attributes; thorough adds all 7.2M depth-4 expressions over a reduced leaf set × 7 lists. Presence of each guarded element is read from the real parser's result.",
      note="Trusted: the rule as stated in the property / docs; observation through public ParsedData fields. Levels not documented (tuple payloads) are not judged."),
  "C16": dict(engine="E1", design="§5 C16", technique="bounded exhaustive enumeration of identifiers through the real parser vs vendored serde_derive case.rs (reference model)",
